@@ -46,12 +46,18 @@ Definition targets_antichainb (c : fchart) : bool :=
                                                 (ft_targets (tr c ti))) (ft_targets (tr c ti)))
           (seq 0 (ntrans c)).
 
-(* no <final> lies below a <parallel> (then neither side raises done.state for a <parallel>) *)
-Definition final_outside_parallelb (c : fchart) : bool :=
-  forallb (fun i => match fs_type (st c i) with
-                    | FFinal => forallb (fun a => match fs_type (st c a) with FParallel => false | _ => true end)
-                                        (fs_ancestors (st c i))
-                    | _ => true
+(* done.state events for <parallel>s: the engine walks up from the parent of an entered <final> and tests
+   every <parallel> on the way with its own recursive test; Appendix D tests the grand-parent only.  They
+   agree if no <final> is the child of a <parallel> and no <final> has a <parallel> above its grand-parent
+   (the complement of Spec.diag's flag 4, plus the child case) *)
+Definition is_parb (c : fchart) (a : nat) : bool := match fs_type (st c a) with FParallel => true | _ => false end.
+Definition done_okb (c : fchart) : bool :=
+  forallb (fun i => match fs_type (st c i), fs_parent (st c i) with
+                    | FFinal, Some p =>
+                      negb (is_parb c p) &&
+                      forallb (fun a => (a =? p) || match fs_parent (st c p) with Some g => a =? g | None => false end ||
+                                        negb (is_parb c a)) (fs_ancestors (st c i))
+                    | _, _ => true
                     end) (seq 0 (nstates c)).
 
 (* which states have had their data initialised: the engine records only states that have data *)
